@@ -50,6 +50,26 @@ PROPS = {
             U("c04", "TestTreesVsRef", T(250, 8, 300), T(3000, 16, 2400)),
         ],
     },
+    "C05": {
+        "level": "exploration",
+        "units": [
+            U("c05", "TestBalloonDense", T(40, 8, 300), T(600, 16, 2400)),
+            U("c05", "TestNodeDense", T(3, 16, 300, shrinktime="60s"), T(40, 16, 2400, shrinktime="180s"), needs=["nodeexec"]),
+        ],
+    },
+    "C07": {
+        "level": "fault_enumeration",
+        "units": [
+            U("c07", "TestCrashPoints", T(1, 16, 400, shrinktime="90s"), T(12, 16, 3000, shrinktime="300s"), needs=["nodeexec"]),
+        ],
+    },
+    "C08": {
+        "level": "exploration",
+        "units": [
+            U("c08", "TestRocksRestart", T(4, 16, 300, shrinktime="60s"), T(60, 16, 2400, shrinktime="180s"), needs=["nodeexec"]),
+            U("c08", "TestBPlusRestart", T(25, 8, 300), T(400, 16, 2400)),
+        ],
+    },
     "C12": {
         "level": "exploration",
         "units": [
